@@ -108,6 +108,20 @@ Proof.
   destruct dup; cbn [negb]; eauto.
 Qed.
 
+(** A reported cycle is a real cycle of recorded predecessor edges of that operation. *)
+Lemma visit_op_cycle m T c : visit_op m T = VCycle c -> tpath m c c /\ reach_from m T c.
+Proof.
+  unfold visit_op. destruct (scan m T) as [[[E dup] T1]|] eqn:Es; [|discriminate].
+  pose proof (scan_spec m T _ Es) as [Hnd Hem Hrest Hself]. cbn in *.
+  assert (Hg : visit_general m E T1 = VCycle c -> tpath m c c /\ reach_from m T c).
+  { unfold visit_general. destruct (topo_reverse m E) as [[c'|res]|] eqn:Et; try discriminate.
+    intros H; inversion H; subst c'. apply topo_spec in Et. destruct Et as [Hc Hr].
+    split; [assumption|]. eapply reach_from_trans; [|exact Hr].
+    intros e He. now apply Hem in He. }
+  destruct E as [|c0 [|c1 E]]; [discriminate| |assumption].
+  destruct dup; cbn [negb]; [assumption|discriminate].
+Qed.
+
 (** * The whole history *)
 Definition key_any (ms : list pmap) (c : N) : Prop := exists m, In m ms /\ is_key m c = true.
 Definition edge_any (ms : list pmap) (c p : N) : Prop := exists m, In m ms /\ edge m c p.
@@ -226,6 +240,20 @@ Proof.
     destruct (visit_op m (t :: T)) eqn:Ev; cbn; try discriminate.
     + apply IH.
     + now apply visit_op_no_fuel in Ev.
+  - destruct T; cbn; discriminate.
+Qed.
+
+Theorem walk_cycle_sound ops : forall k T c,
+  snd (walk k ops T) = Cycle c -> exists m, In (Some m) ops /\ tpath m c c.
+Proof.
+  induction ops as [|[m|] rest IH]; intros k T c.
+  - rewrite walk_nil_ops. discriminate.
+  - destruct T as [|t T]; [cbn; discriminate|]. rewrite walk_cons by discriminate.
+    destruct (visit_op m (t :: T)) eqn:Ev; cbn.
+    + intros H. destruct (IH _ _ _ H) as (m' & Hm' & Hp). exists m'. split; [now right|assumption].
+    + intros H; inversion H; subst. exists m. split; [now left|].
+      now apply visit_op_cycle in Ev.
+    + discriminate.
   - destruct T; cbn; discriminate.
 Qed.
 
